@@ -37,6 +37,10 @@ CHECKS = {
    text="Statement-level schedules of 2-3 concurrently open sessions plus autocommit statements (the single harness thread owns the schedule, so every interleaving is deterministic and replayable) are checked (a) against a snapshot-isolation reference model: every SELECT inside a session, every affected-row count, commit outcomes and the committed state; (b) model-free on the engine alone: a rollback or an uncommitted write never changes what a fresh reader sees, and a session that repeats a SELECT without writing in between gets the same rows. Sampling of schedules; UPDATE inside sessions and write-write conflicts are excluded from (a) by open findings, (b) still covers conflicting deletes.",
    note="Trusted: the SI model (harness/src/sqlmodel.rs Model/Txn) and the schedule interpreter; tables without constraints; no DDL after setup; only the outcome of first-committer-wins is asserted.",
    technique="property-based testing: generated transaction programs + interleavings (owned schedule), differential against an SI reference model, plus metamorphic invariants on the engine alone"),
+ "C05": dict(level="exploration", ref="2/C05",
+   text="Generated schemas, NULL-rich rows and statements (SELECT with typed expression trees over comparison/AND/OR/NOT/IS NULL/BETWEEN/IN/LIKE/arithmetic/concatenation printed with minimal parentheses, computed projections, DISTINCT, ORDER BY, LIMIT/OFFSET, all five join kinds with ON and WHERE, GROUP BY with COUNT/SUM/MIN/MAX/AVG, UPDATE/DELETE with predicates) are answered by the engine and by an independent reference evaluator with three-valued logic; results compared as multisets, ORDER BY as a sortedness predicate, LIMIT as any valid window. Metamorphic: minimal and fully parenthesised prints of the same query return the same rows. Sampling.",
+   note="Trusted: harness/src/qmodel.rs (reference evaluator and printer). NULLs last ascending; bytewise text order; integer arithmetic discarded when the exact result leaves 32 bits; divisors are non-zero literals.",
+   technique="property-based testing: grammar-based query generation, differential against a reference evaluator, metamorphic parenthesisation relation"),
  "C10": dict(level="exploration", ref="2/C10",
    text="Generated operation sequences (insert/update/upsert/remove/lookup/scan) on a raw B+tree through the `verif` facade, for four key schemas and a grid of page/min-keys/siblings/cache settings, are compared after every operation with a BTreeMap model (operation outcome, full in-order scan, lookup of every key) and every few operations with a structural audit of the page graph (equal leaf depth, sibling links mirror the in-order leaf sequence, child/overflow references in range, every page owned exactly once). Sampling; open findings cap the payload size that is searched (see evidence.excluded / known.json).",
    note="Trusted: the BTreeMap model and harness/src/audit.rs; text key order = the engine's public Blob ordering; the facade is logic-free plumbing over Btree::{insert,update,upsert,remove_tuple,search_tuple,iter_forward}.",
